@@ -47,3 +47,45 @@ verif_proof! { [C16]
         leak(r);
     }
 }
+// the same obligation over longer cursor strings (thorough tier)
+fn parse_cursor_up_to<const L: usize>() {
+    let raw: [u8; L] = kani::any();
+    let mut i = 0;
+    while i < L {
+        kani::assume(raw[i] == b' ' || raw[i] == b'+' || raw[i] == b'-' || raw[i] == b'x' || (raw[i] >= b'0' && raw[i] <= b'9'));
+        i += 1;
+    }
+    let len: usize = kani::any();
+    kani::assume(len <= L);
+    let s = unsafe { core::str::from_utf8_unchecked(&raw[..len]) };
+    let total: usize = kani::any();
+    let present: bool = kani::any();
+    let r = parse_cursor(if present { Some(s) } else { None }, total);
+    match &r {
+        Ok(v) => {
+            assert!(*v <= total, "[C16] a cursor beyond the total number of hits was accepted");
+            if !present { assert!(*v == 0, "[C16] absent cursor does not start at 0"); }
+            // reference value of an all-digit cursor
+            let mut all_digits = present && len > 0;
+            let mut want = 0usize;
+            let mut j = 0;
+            while j < len {
+                if raw[j] >= b'0' && raw[j] <= b'9' { want = want * 10 + (raw[j] - b'0') as usize; } else { all_digits = false; }
+                j += 1;
+            }
+            if all_digits { assert!(*v == want, "[C16] cursor parsed to a different position"); }
+            kani::cover!(all_digits && *v > 9, "two-digit cursor accepted");
+            kani::cover!(all_digits && len == L && raw[0] != b'0', "full-length cursor accepted");
+        }
+        Err(e) => {
+            assert!(matches!(e, MemvidError::InvalidCursor { .. }), "[C16] bad cursor reported with the wrong error kind");
+            assert!(present, "[C16] absent cursor rejected");
+        }
+    }
+    kani::cover!(r.is_err(), "cursor rejected");
+    leak(r);
+}
+verif_proof! { [C16]
+    #[kani::unwind(8)]
+    fn c16_parse_cursor_5() { parse_cursor_up_to::<5>(); }
+}
